@@ -234,7 +234,7 @@ def huge_campaign(kind):
             return base
         exe = build("huge", ["native/huge.c"], root, extra=["-O2"])
         texts = [base["text"]]
-        for args in ((["aead", "31"], ["aead", "32"]) if kind == "aead" else (["hash"],)):
+        for args in ((["aead", "31"], ["aead", "32"], ["ad"]) if kind == "aead" else (["hash"],)):
             rc, out, secs = run_tool(exe, args, root, timeout=1500)
             cmd = "native/huge " + " ".join(args)
             if rc == 1:
@@ -249,3 +249,23 @@ def huge_campaign(kind):
                 texts.append(out.strip().split("\n")[-1])
         return {"text": "; ".join(texts)}
     return run
+
+
+def sanitizer_campaign(tier, seed, root):
+    """Supporting test for C06 (not a proof): the differential campaigns with the library built with
+    -fsanitize=undefined (misaligned access, shifts, signed overflow, ...) and unaligned buffers; any report aborts
+    (out-of-bounds accesses are covered by the guard bytes of the same campaigns and, deductively, by the CBMC jobs)."""
+    san = ["-fsanitize=undefined", "-fno-sanitize=nonnull-attribute", "-fno-sanitize-recover=all"]   # memcpy(dst, NULL, 0): observation, see C06     # ASan needs more address space than the memory limit of the runs allows
+    texts = []
+    for name, src, args in (("diff_aead_san", "native/diff_aead.c", ["campaign", seed, 600 if tier == "quick" else 6000]),
+                            ("diff_lib_san", "native/diff_lib.c", ["all", seed, 200 if tier == "quick" else 2000])):
+        exe = build(name, [src], root, extra=san)
+        rc, out, secs = P.run([exe] + [str(a) for a in args], os.path.dirname(exe), 900, mem_gb=40,
+                              env={"UBSAN_OPTIONS": "print_stacktrace=0"})
+        cmd = "native/%s %s (library built with -fsanitize=undefined)" % (name, " ".join(str(a) for a in args))
+        if rc != 0:
+            lines = [l for l in out.split("\n") if "runtime error" in l or l.startswith("FAIL")][:4]
+            return {"violation": True, "name": "native." + name, "obligation": "no sanitizer report (misaligned access, out-of-bounds access, undefined arithmetic) in the real library",
+                    "text": "\n".join(lines) or out[-400:], "cmd": cmd, "reproduced": True}
+        texts.append("%s: %s" % (name, out.strip().split("\n")[-1]))
+    return {"text": "sanitizer build differential test (a test, not a proof): " + "; ".join(texts)}
